@@ -2,7 +2,7 @@
 from props import schedcommon as sc
 
 PROPERTY = 'C01'
-THEOREMS = ['Sched.dep_safe_inv']
+THEOREMS = ['Sched.dep_safe_inv', 'Sched.InvA_step', 'Sched.InvA_init', 'Sched.InvA_reach', 'Sched.step_sound', 'Sched.decide_spec', 'Sched.seen_is_snapshot']
 BUDGET = {'quick': 250, 'thorough': 6000}
 TIME_LIMIT = {'quick': 55, 'thorough': 700}
 RULE = ('single runs: random DAGs (hard/soft edges), 1-6 workers, all 7 outcome kinds, random and PCT schedules' + '; the real QueueScheduling backend runs under the controlled scheduler; non-trivial = '
